@@ -20,7 +20,9 @@ Skew(k) == << <<Zero, RNeg(k[3]), k[2]>>, <<k[3], Zero, RNeg(k[1])>>, <<RNeg(k[2
 Outer(k) == E([i \in 1..3 |-> E([j \in 1..3 |-> RMul(k[i], k[j])])])
 AxisAngleMat(k, cs) ==
     MAdd(MAdd(MScale(cs[1], MId(3)), MScale(cs[2], Skew(k))), MScale(RSub(One, cs[1]), Outer(k)))
-UnitAxes == {<<One, Zero, Zero>>, <<Zero, Zero, One>>, <<R(1,3), R(2,3), R(2,3)>>, <<R(2,7), R(-3,7), R(6,7)>>, <<R(-2,3), R(1,3), R(2,3)>>}
+\* every coordinate is the dominant one for some axis (conversion code branches on the largest diagonal entry)
+UnitAxes == {<<One, Zero, Zero>>, <<Zero, One, Zero>>, <<Zero, Zero, One>>, <<R(1,3), R(2,3), R(2,3)>>, <<R(2,7), R(-3,7), R(6,7)>>,
+             <<R(-2,3), R(1,3), R(2,3)>>, <<R(2,7), R(6,7), R(3,7)>>, <<R(6,7), R(-2,7), R(3,7)>>, <<R(-3,7), R(-6,7), R(2,7)>>}
 
 \* quaternion (w, x, y, z) of a rotation about rational unit axis k by an angle whose HALF angle has rational (cos, sin)
 QuatOf(k, hcs) == <<hcs[1], RMul(hcs[2], k[1]), RMul(hcs[2], k[2]), RMul(hcs[2], k[3])>>
@@ -35,6 +37,7 @@ QMat(q) ==
 Dbl(cs) == <<RSub(RSq(cs[1]), RSq(cs[2])), RMul(Two, RMul(cs[1], cs[2]))>>
 
 CONSTANTS Angles,      \* set of (cos, sin) pairs
+          HalfAngles,  \* (cos, sin) of HALF the rotation angle for axis-angle / quaternion cases
           Orders,      \* set of order triples
           EmitCases
 VARIABLES st, ca
@@ -43,7 +46,7 @@ NoCase == [kind |-> "", order |-> <<>>, cs |-> <<>>, axis |-> <<>>]
 Init == st = 0 /\ ca = NoCase
 PickEuler == st = 0 /\ \E o \in Orders, a \in Angles, b \in Angles, c \in Angles :
                  ca' = [kind |-> "euler", order |-> o, cs |-> <<a, b, c>>, axis |-> <<>>] /\ st' = 1
-PickAxis  == st = 0 /\ \E k \in UnitAxes, a \in Angles :
+PickAxis  == st = 0 /\ \E k \in UnitAxes, a \in HalfAngles :
                  ca' = [kind |-> "axis", order |-> <<>>, cs |-> <<a>>, axis |-> k] /\ st' = 1
 Pick2D    == st = 0 /\ \E a \in Angles : ca' = [kind |-> "planar", order |-> <<>>, cs |-> <<a>>, axis |-> <<>>] /\ st' = 1
 Next == PickEuler \/ PickAxis \/ Pick2D
